@@ -225,6 +225,14 @@ func (t *tcode) leanType(T types.Type) (string, bool) {
 			return "", false
 		}
 		return "(List " + e + ")", true
+	case *types.Map:
+		// read-only use: an association list (lookups go through Go.mapGet)
+		k, ok1 := t.leanType(x.Key())
+		v, ok2 := t.leanType(x.Elem())
+		if !ok1 || !ok2 {
+			return "", false
+		}
+		return "(List (" + k + " × " + v + "))", true
 	case *types.Pointer:
 		return t.leanType(x.Elem())
 	case *types.Tuple:
@@ -293,6 +301,10 @@ func (t *tcode) zero(T types.Type) (string, bool) {
 			return "ByteArray.empty", true
 		}
 		if _, ok := t.leanType(x.Elem()); ok {
+			return "[]", true
+		}
+	case *types.Map:
+		if _, ok := t.leanType(x); ok {
 			return "[]", true
 		}
 	case *types.Pointer:
@@ -2128,6 +2140,29 @@ func (e *emitter) assign(sb *strings.Builder, s *ast.AssignStmt, n int) {
 			if ta, ok := s.Rhs[0].(*ast.TypeAssertExpr); ok && ta.Type != nil {
 				e.typeAssert(sb, s, ta, n)
 				return
+			}
+			if ix, ok := s.Rhs[0].(*ast.IndexExpr); ok {
+				if mt, isMap := e.typeOf(ix.X).Underlying().(*types.Map); isMap {
+					// v, ok := m[k]
+					z, okz := e.t.zero(mt.Elem())
+					if !okz {
+						e.t.fail(ix, "map value type without a zero value")
+					}
+					m := e.expr(ix.X, &h)
+					k := e.expr(ix.Index, &h)
+					e.emitHoist(sb, &h, n)
+					a, b := e.fresh(), e.fresh()
+					sb.WriteString(fmt.Sprintf("%slet (%s, %s) := (Go.mapGet %s %s %s)\n", e.ind(n), a, b, e.atom(m), e.atom(k), e.atom(z)))
+					for i, l := range s.Lhs {
+						if s.Tok == token.DEFINE {
+							if id, ok := l.(*ast.Ident); ok {
+								e.noteDecl(id)
+							}
+						}
+						e.assignTo(sb, l, []string{a, b}[i], n, &h)
+					}
+					return
+				}
 			}
 		}
 		if len(s.Rhs) == 1 {
